@@ -15,12 +15,28 @@ Clause → theorem                                   (model: Model/DepProtocol.l
   the callback recursion terminates                 callbacks_terminate
   fitted after all conditioners, ANY history        no_stale_after_any_history  (versions),
     (any declaration order, any order/multiplicity  final_fit_after_conditioners (event log),
-     of fit calls, re-fit)                          version_eq_count_log
+     of fit calls, any data epochs, re-fit)         version_eq_count_log
   everything called ⇒ everything fitted             all_called_all_fitted
   both together (⇒ order independence: the final    final_state_consistent
     fits happen in a dependency-compatible order)
   intermediate fit may see an unfitted conditioner  intermediate_fit_may_see_unfitted_conditioner (witness)
   the `issubset` test of `callback` never fails     callback_true
+  INPUTS of every `_fit` (a history is a list of public calls `(function, data epoch)`):
+  stored x/y = pairs of the latest public call      stored_data_is_latest_call
+                                                    (latestCall_eq_some_iff / _eq_none_iff pin the spec down)
+  every `_fit` (direct or by callback, any depth)   fit_uses_stored_data (per call),
+    runs on the stored pairs = latest call's pairs  every_fit_used_latest_call_data (whole log),
+                                                    last_fit_data_is_stored, lastData_eq_log (state)
+  re-fit: after a complete round of epoch r (any    round_complete_all_current,
+    order, after any earlier complete/partial       round_complete_fits_in_round (fresh epoch label:
+    rounds) every last `_fit` used epoch-r pairs      the last fits happen during that round)
+    AND saw its conditioners' final versions
+  start values of every `_fit` = the values         start_values_fixed
+    captured at the first `_fit` = the constructor's
+    values, never an earlier result
+  detailed log refines the plain log                evlog_refines_log
+  seeded variant "store x/y only when deferred"     stale_variant_refits_old_pairs (by decide, on
+    violates the re-fit statement                     `fitCallStale`, which is NOT the code)
   bounds handed to curve_fit = declared bounds      convertBounds_spec, convertBounds_length
   declared constraints reach the optimiser          constraints_reach_optimiser, unconstrained_uses_curve_fit,
                                                     constrained_weighted_refused;
@@ -36,10 +52,14 @@ NOT theorems (observed on the real code by the harness on every explored case, s
      popt := fit f … ⊢ Admissible bounds popt ∧ constraints popt ≥ 0 ∧ S popt ≤ S p0 ∧
                         ∃ ε > 0, ∀ q admissible, ‖q − popt‖ < ε → S popt ≤ S q.
   What is missing is a model of scipy's optimisers.
+  That the model's `_fit` inputs (function, data epoch, start-value token, call number) are the real
+  code's is the correspondence check: the harness records, for every real `_fit`, the identity of
+  the x/y objects that reach `fit_function`/`fit_constrained_function` and the `p0` handed over.
 -/
 import VirVerif.Model.DepProtocol
 import VirVerif.Model.DepFit
 import Mathlib.Data.List.Basic
+import Mathlib.Data.List.Induction
 import Mathlib.Tactic.Linarith
 import Mathlib.Tactic.Ring
 import Mathlib.Tactic.LinearCombination
@@ -74,6 +94,11 @@ def allow (s : Mut) (f h : Nat) : Mut :=
 theorem upd_other {β} (f : Nat → β) (i j : Nat) (v : β) (h : j ≠ i) : upd f i v j = f j := by
   simp [upd, h]
 
+theorem hasXY_some {s : Mut} {h e : Nat} (hx : s.xyEpoch h = some e) : s.hasXY h = true := by
+  simp [Mut.hasXY, hx]
+theorem hasXY_none {s : Mut} {h : Nat} (hx : s.xyEpoch h = none) : s.hasXY h = false := by
+  simp [Mut.hasXY, hx]
+
 theorem mem_dependents {N conds f h} : h ∈ dependents N conds f ↔ h < N ∧ f ∈ conds h := by
   simp only [dependents, List.mem_flatMap, List.mem_range, List.mem_map, List.mem_filter]
   constructor
@@ -97,9 +122,12 @@ theorem mem_insertNew {a b : Nat} {l : List Nat} : b ∈ insertNew a l ↔ b = a
     simp [or_comm]
 
 /-- the `issubset` test in `callback` can never fail -/
-theorem callback_true (conds : Nat → List Nat) (refit : Nat → Mut → Mut) (f : Nat) (s : Mut) (h : Nat)
-    (hsub : FcSub conds s) (hf : f ∈ conds h) :
-    callback conds refit f s h = if s.hasXY h then refit h (allow s f h) else allow s f h := by
+theorem callback_true (conds : Nat → List Nat) (refit : Nat → Nat → Mut → Mut) (f : Nat) (s : Mut)
+    (h : Nat) (hsub : FcSub conds s) (hf : f ∈ conds h) :
+    callback conds refit f s h =
+      match s.xyEpoch h with
+      | some e => refit h e (allow s f h)
+      | none => allow s f h := by
   have hall : ((upd s.fitted h (insertNew f (s.fitted h))) h).all
       (fun g => (conds h).contains g) = true := by
     rw [upd_same, List.all_eq_true]
@@ -127,20 +155,29 @@ theorem allow_fcSub {conds : Nat → List Nat} {s : Mut} {f h : Nat} (hsub : FcS
     rw [this] at hg
     exact hsub k g hg
 
-theorem foldl_callback_cons (conds : Nat → List Nat) (refit : Nat → Mut → Mut) (f : Nat) (t : Mut)
-    (d : Nat) (ds : List Nat) (hsub : FcSub conds t) (hf : f ∈ conds d) :
+/-- stored pairs of epoch `e`: the callback re-fits `d` on exactly these pairs -/
+theorem foldl_callback_cons_some (conds : Nat → List Nat) (refit : Nat → Nat → Mut → Mut) (f : Nat)
+    (t : Mut) (d e : Nat) (ds : List Nat) (hsub : FcSub conds t) (hf : f ∈ conds d)
+    (hx : t.xyEpoch d = some e) :
     (d :: ds).foldl (callback conds refit f) t =
-      ds.foldl (callback conds refit f)
-        (if t.hasXY d then refit d (allow t f d) else allow t f d) := by
-  rw [List.foldl_cons, callback_true conds refit f t d hsub hf]
+      ds.foldl (callback conds refit f) (refit d e (allow t f d)) := by
+  rw [List.foldl_cons, callback_true conds refit f t d hsub hf, hx]
+
+/-- no stored pairs: only the bookkeeping happens -/
+theorem foldl_callback_cons_none (conds : Nat → List Nat) (refit : Nat → Nat → Mut → Mut) (f : Nat)
+    (t : Mut) (d : Nat) (ds : List Nat) (hsub : FcSub conds t) (hf : f ∈ conds d)
+    (hx : t.xyEpoch d = none) :
+    (d :: ds).foldl (callback conds refit f) t =
+      ds.foldl (callback conds refit f) (allow t f d) := by
+  rw [List.foldl_cons, callback_true conds refit f t d hsub hf, hx]
 
 theorem doFit_fcSub (N : Nat) (conds : Nat → List Nat) :
-    ∀ fuel f s, FcSub conds s → FcSub conds (doFit N conds fuel f s) := by
+    ∀ fuel f e s, FcSub conds s → FcSub conds (doFit N conds fuel f e s) := by
   intro fuel
   induction fuel with
-  | zero => intro f s hs; exact hs
+  | zero => intro f e s hs; exact hs
   | succ fuel ih =>
-    intro f s hs
+    intro f e s hs
     simp only [doFit]
     have loop : ∀ (ds : List Nat) (t : Mut), (∀ d ∈ ds, f ∈ conds d) → FcSub conds t →
         FcSub conds (ds.foldl (callback conds (doFit N conds fuel) f) t) := by
@@ -150,37 +187,93 @@ theorem doFit_fcSub (N : Nat) (conds : Nat → List Nat) :
       | cons d ds ihds =>
         intro t hds ht
         have hd := hds d (by simp)
-        rw [foldl_callback_cons _ _ _ _ _ _ ht hd]
-        apply ihds _ (fun k hk => hds k (by simp [hk]))
-        split
-        · exact ih _ _ (allow_fcSub ht hd)
-        · exact allow_fcSub ht hd
+        cases hxd : t.xyEpoch d with
+        | some e' =>
+          rw [foldl_callback_cons_some _ _ _ _ _ _ _ ht hd hxd]
+          exact ihds _ (fun k hk => hds k (by simp [hk])) (ih _ _ _ (allow_fcSub ht hd))
+        | none =>
+          rw [foldl_callback_cons_none _ _ _ _ _ _ ht hd hxd]
+          exact ihds _ (fun k hk => hds k (by simp [hk])) (allow_fcSub ht hd)
     exact loop _ _ (fun d hd => (mem_dependents.mp hd).2) hs
 
-/-- Main cascade lemma: a `_fit` of `f` (with enough fuel) leaves `hasXY` alone, keeps `Good`,
-creates no stale pair, and clears every stale pair of `f` itself. -/
+/-! ### a generic preservation principle for the cascade
+
+Everything a `_fit` cascade does is: `bump` (always on a function whose pairs are stored, on
+exactly the stored epoch, and whose `_may_fit` is true), and bookkeeping updates of `fitted` /
+`mayFit`.  A predicate closed under these three steps holds after the cascade. -/
+
+theorem doFit_preserves (N : Nat) (conds : Nat → List Nat) (P : Mut → Prop)
+    (hb : ∀ s f e, s.xyEpoch f = some e → s.mayFit f = true → P s → P (bump s f e))
+    (hfit : ∀ (s : Mut) (f h : Nat), P s →
+      P { s with fitted := upd s.fitted h (insertNew f (s.fitted h)) })
+    (hallow : ∀ (s : Mut) (f h : Nat), P s → P (allow s f h)) :
+    (∀ fuel f e s, s.xyEpoch f = some e → s.mayFit f = true → P s → P (doFit N conds fuel f e s)) ∧
+    (∀ fuel f e s, P (bump s f e) → P (doFit N conds (fuel + 1) f e s)) := by
+  have main : ∀ fuel, (∀ f e s, s.xyEpoch f = some e → s.mayFit f = true → P s →
+      P (doFit N conds fuel f e s)) →
+      ∀ f (ds : List Nat) (t : Mut), P t → P (ds.foldl (callback conds (doFit N conds fuel) f) t) := by
+    intro fuel ih f ds
+    induction ds with
+    | nil => intro t ht; exact ht
+    | cons d ds ihds =>
+      intro t ht
+      rw [List.foldl_cons]
+      apply ihds
+      unfold callback
+      dsimp only
+      split
+      · split
+        · rename_i e' hx
+          exact ih d e' (allow t f d) hx (upd_same _ _ _) (hallow t f d ht)
+        · exact hallow t f d ht
+      · exact hfit t f d ht
+  have all : ∀ fuel f e s, s.xyEpoch f = some e → s.mayFit f = true → P s →
+      P (doFit N conds fuel f e s) := by
+    intro fuel
+    induction fuel with
+    | zero => intro f e s _ _ hs; exact hs
+    | succ fuel ih =>
+      intro f e s hx hm hs
+      simp only [doFit]
+      exact main fuel ih f _ _ (hb s f e hx hm hs)
+  refine ⟨all, ?_⟩
+  intro fuel f e s hs
+  simp only [doFit]
+  exact main fuel (all fuel) f _ _ hs
+
+/-- a cascade touches neither the stored pairs nor the call counter -/
+theorem doFit_frame (N : Nat) (conds : Nat → List Nat) (fuel f e : Nat) (s : Mut) :
+    (doFit N conds fuel f e s).xyEpoch = s.xyEpoch ∧ (doFit N conds fuel f e s).calls = s.calls := by
+  have key := (doFit_preserves N conds (fun t => t.xyEpoch = s.xyEpoch ∧ t.calls = s.calls)
+    (fun _ _ _ _ _ h => h) (fun _ _ _ h => h) (fun _ _ _ h => h))
+  cases fuel with
+  | zero => exact ⟨rfl, rfl⟩
+  | succ fuel => exact key.2 fuel f e s ⟨rfl, rfl⟩
+
+/-- Main cascade lemma: a `_fit` of `f` (with enough fuel) leaves the stored pairs alone, keeps
+`Good`, creates no stale pair, and clears every stale pair of `f` itself. -/
 theorem doFit_spec (N : Nat) (conds : Nat → List Nat) (wf : WF conds) :
-    ∀ fuel f s, f < N → N - f ≤ fuel → Good s → FcSub conds s → s.hasXY f = true →
-      let s' := doFit N conds fuel f s
-      s'.hasXY = s.hasXY ∧ Good s' ∧
+    ∀ fuel f e s, f < N → N - f ≤ fuel → Good s → FcSub conds s → s.hasXY f = true →
+      let s' := doFit N conds fuel f e s
+      s'.xyEpoch = s.xyEpoch ∧ Good s' ∧
       (∀ h g, h < N → Stale conds s' h g → Stale conds s h g ∧ h ≠ f) := by
   intro fuel
   induction fuel with
-  | zero => intro f s hf hfuel; omega
+  | zero => intro f e s hf hfuel; omega
   | succ fuel ih =>
-    intro f s hf hfuel hgood hsub hxy
+    intro f e s hf hfuel hgood hsub hxy
     simp only [doFit]
     -- state after the `_fit` of `f` itself
-    have h1xy : (bump s f).hasXY = s.hasXY := rfl
-    have h1sub : FcSub conds (bump s f) := hsub
-    have h1good : Good (bump s f) := by
+    have h1xy : (bump s f e).xyEpoch = s.xyEpoch := rfl
+    have h1sub : FcSub conds (bump s f e) := hsub
+    have h1good : Good (bump s f e) := by
       intro h hv
       by_cases hhf : h = f
       · subst hhf; exact hxy
-      · have : (bump s f).version h = s.version h := upd_other _ _ _ _ hhf
+      · have : (bump s f e).version h = s.version h := upd_other _ _ _ _ hhf
         exact hgood h (by rw [← this]; exact hv)
     -- stale pairs after the bump: old ones (not of f) or new ones `(h, f)` with `h` a dependent
-    have h1stale : ∀ h g, h < N → Stale conds (bump s f) h g →
+    have h1stale : ∀ h g, h < N → Stale conds (bump s f e) h g →
         (Stale conds s h g ∧ h ≠ f) ∨ (g = f ∧ h ∈ dependents N conds f) := by
       intro h g hhN ⟨hv, hg, hne⟩
       by_cases hhf : h = f
@@ -190,21 +283,21 @@ theorem doFit_spec (N : Nat) (conds : Nat → List Nat) (wf : WF conds) :
         apply hne
         show upd s.seen h (fun g => s.version g) h g = upd s.version h (s.version h + 1) g
         rw [upd_same, upd_other _ _ _ _ hgf]
-      · have hvh : (bump s f).version h = s.version h := upd_other _ _ _ _ hhf
-        have hsh : (bump s f).seen h = s.seen h := upd_other _ _ _ _ hhf
+      · have hvh : (bump s f e).version h = s.version h := upd_other _ _ _ _ hhf
+        have hsh : (bump s f e).seen h = s.seen h := upd_other _ _ _ _ hhf
         by_cases hgf : g = f
         · right; exact ⟨hgf, mem_dependents.mpr ⟨hhN, hgf ▸ hg⟩⟩
         · left
-          have hvg : (bump s f).version g = s.version g := upd_other _ _ _ _ hgf
+          have hvg : (bump s f e).version g = s.version g := upd_other _ _ _ _ hgf
           refine ⟨⟨by rw [← hvh]; exact hv, hg, ?_⟩, hhf⟩
           rw [← hsh, ← hvg]; exact hne
     -- loop over the dependents
     have loop : ∀ (ds : List Nat) (t : Mut), (∀ h ∈ ds, h < N ∧ f ∈ conds h) →
-        t.hasXY = s.hasXY → Good t → FcSub conds t →
+        t.xyEpoch = s.xyEpoch → Good t → FcSub conds t →
         (∀ h g, h < N → Stale conds t h g →
             (Stale conds s h g ∧ h ≠ f) ∨ (g = f ∧ h ∈ ds)) →
         let t' := ds.foldl (callback conds (doFit N conds fuel) f) t
-        t'.hasXY = s.hasXY ∧ Good t' ∧
+        t'.xyEpoch = s.xyEpoch ∧ Good t' ∧
         (∀ h g, h < N → Stale conds t' h g → Stale conds s h g ∧ h ≠ f) := by
       intro ds
       induction ds with
@@ -219,17 +312,18 @@ theorem doFit_spec (N : Nat) (conds : Nat → List Nat) (wf : WF conds) :
         intro t hds hxyt hgt hsubt hst
         have hd := hds d (by simp)
         have hdf : f < d := wf d f hd.2
-        rw [foldl_callback_cons _ _ _ _ _ _ hsubt hd.2]
         have ht2stale : ∀ h g, Stale conds (allow t f d) h g ↔ Stale conds t h g :=
           fun h g => Iff.rfl
         have ht2sub : FcSub conds (allow t f d) := allow_fcSub hsubt hd.2
-        by_cases hxyd : t.hasXY d = true
-        · rw [if_pos hxyd]
+        cases hxd : t.xyEpoch d with
+        | some e' =>
+          rw [foldl_callback_cons_some _ _ _ _ _ _ _ hsubt hd.2 hxd]
+          have hxyd : (allow t f d).hasXY d = true := hasXY_some (s := allow t f d) hxd
           have hgood2 : Good (allow t f d) := hgt
           obtain ⟨hxy3, hgood3, hst3⟩ :=
-            ih d (allow t f d) hd.1 (by omega) hgood2 ht2sub hxyd
-          apply ihds (doFit N conds fuel d (allow t f d)) (fun h hh => hds h (by simp [hh]))
-            (by rw [hxy3]; exact hxyt) hgood3 (doFit_fcSub N conds fuel d _ ht2sub)
+            ih d e' (allow t f d) hd.1 (by omega) hgood2 ht2sub hxyd
+          apply ihds (doFit N conds fuel d e' (allow t f d)) (fun h hh => hds h (by simp [hh]))
+            (by rw [hxy3]; exact hxyt) hgood3 (doFit_fcSub N conds fuel d e' _ ht2sub)
           intro h g hhN hstale
           obtain ⟨hold, hhd⟩ := hst3 h g hhN hstale
           rcases hst h g hhN ((ht2stale h g).mp hold) with h' | ⟨hgf, hmem⟩
@@ -238,7 +332,8 @@ theorem doFit_spec (N : Nat) (conds : Nat → List Nat) (wf : WF conds) :
             rcases List.mem_cons.mp hmem with h'' | h''
             · exact absurd h'' hhd
             · exact h''
-        · rw [if_neg hxyd]
+        | none =>
+          rw [foldl_callback_cons_none _ _ _ _ _ _ hsubt hd.2 hxd]
           apply ihds (allow t f d) (fun h hh => hds h (by simp [hh])) hxyt hgt ht2sub
           intro h g hhN hstale
           rcases hst h g hhN ((ht2stale h g).mp hstale) with h' | ⟨hgf, hmem⟩
@@ -249,34 +344,51 @@ theorem doFit_spec (N : Nat) (conds : Nat → List Nat) (wf : WF conds) :
               exfalso
               subst h''
               have : t.hasXY h = true := hgt h hstale.1
-              exact hxyd this
+              rw [hasXY_none hxd] at this
+              cases this
             · exact h''
-    exact loop (dependents N conds f) (bump s f) (fun h hh => mem_dependents.mp hh) h1xy h1good
+    exact loop (dependents N conds f) (bump s f e) (fun h hh => mem_dependents.mp hh) h1xy h1good
       h1sub h1stale
 
 /-- the three invariants of a top-level state -/
 def Inv (N : Nat) (conds : Nat → List Nat) (s : Mut) : Prop :=
   Good s ∧ FcSub conds s ∧ NoStale N conds s
 
+/-- the state in which `fit` has stored the pairs but not yet fitted -/
+def store (s : Mut) (f e : Nat) : Mut :=
+  { s with xyEpoch := upd s.xyEpoch f (some e), calls := s.calls + 1 }
+
+theorem fitCall_eq (N : Nat) (conds : Nat → List Nat) (f e : Nat) (s : Mut) :
+    fitCall N conds f e s =
+      if s.mayFit f = true then doFit N conds N f e (store s f e) else store s f e := rfl
+
+theorem store_hasXY_self (s : Mut) (f e : Nat) : (store s f e).hasXY f = true :=
+  hasXY_some (s := store s f e) (upd_same _ _ _)
+
+theorem store_hasXY_other (s : Mut) (f e h : Nat) (hhf : h ≠ f) :
+    (store s f e).hasXY h = s.hasXY h := by
+  show ((upd s.xyEpoch f (some e)) h).isSome = (s.xyEpoch h).isSome
+  rw [upd_other _ _ _ _ hhf]
+
+theorem store_hasXY_mono (s : Mut) (f e h : Nat) (hx : s.hasXY h = true) :
+    (store s f e).hasXY h = true := by
+  by_cases hhf : h = f
+  · subst hhf; exact store_hasXY_self s h e
+  · rw [store_hasXY_other s f e h hhf]; exact hx
+
 /-- one public `fit` call keeps the invariant -/
-theorem fitCall_inv (N : Nat) (conds : Nat → List Nat) (wf : WF conds) (f : Nat) (hf : f < N)
-    (s : Mut) (hinv : Inv N conds s) : Inv N conds (fitCall N conds f s) := by
+theorem fitCall_inv (N : Nat) (conds : Nat → List Nat) (wf : WF conds) (f e : Nat) (hf : f < N)
+    (s : Mut) (hinv : Inv N conds s) : Inv N conds (fitCall N conds f e s) := by
   obtain ⟨hg, hsub, hs⟩ := hinv
-  unfold fitCall
-  have hg1 : Good { s with hasXY := upd s.hasXY f true } := by
-    intro h hv
-    by_cases hhf : h = f
-    · subst hhf; exact upd_same _ _ _
-    · show upd s.hasXY f true h = true
-      rw [upd_other _ _ _ _ hhf]; exact hg h hv
-  have hs1' : NoStale N conds { s with hasXY := upd s.hasXY f true } := hs
-  have hsub1 : FcSub conds { s with hasXY := upd s.hasXY f true } := hsub
-  dsimp only
+  rw [fitCall_eq]
+  have hg1 : Good (store s f e) := fun h hv => store_hasXY_mono s f e h (hg h hv)
+  have hs1' : NoStale N conds (store s f e) := hs
+  have hsub1 : FcSub conds (store s f e) := hsub
   by_cases hm : s.mayFit f = true
   · rw [if_pos hm]
     obtain ⟨_, hg2, hst2⟩ :=
-      doFit_spec N conds wf N f _ hf (by omega) hg1 hsub1 (upd_same _ _ _)
-    exact ⟨hg2, doFit_fcSub N conds N f _ hsub1,
+      doFit_spec N conds wf N f e _ hf (by omega) hg1 hsub1 (store_hasXY_self s f e)
+    exact ⟨hg2, doFit_fcSub N conds N f e _ hsub1,
       fun h g hh hstale => hs1' h g hh (hst2 h g hh hstale).1⟩
   · rw [if_neg hm]
     exact ⟨hg1, hsub1, hs1'⟩
@@ -287,24 +399,35 @@ theorem init_inv (N : Nat) (conds : Nat → List Nat) : Inv N conds (init conds)
   · intro h g hg; simp [init] at hg
   · intro h g _ hst; simp [Stale, init] at hst
 
-theorem runHistory_inv (N : Nat) (conds : Nat → List Nat) (wf : WF conds)
-    (ops : List Nat) (hops : ∀ f ∈ ops, f < N) : Inv N conds (runHistory N conds ops) := by
+/-- histories: induction principle (a property of the start state that every public call keeps) -/
+theorem runHistory_induct (N : Nat) (conds : Nat → List Nat) (P : Mut → Prop)
+    (h0 : P (init conds)) (ops : List (Nat × Nat)) (Q : Nat × Nat → Prop) (hops : ∀ p ∈ ops, Q p)
+    (hstep : ∀ s p, Q p → P s → P (fitCall N conds p.1 p.2 s)) : P (runHistory N conds ops) := by
   unfold runHistory
-  suffices H : ∀ (ops : List Nat) (s : Mut), (∀ f ∈ ops, f < N) → Inv N conds s →
-      Inv N conds (ops.foldl (fun s f => fitCall N conds f s) s) from
-    H ops _ hops (init_inv N conds)
+  suffices H : ∀ (ops : List (Nat × Nat)) (s : Mut), (∀ p ∈ ops, Q p) → P s →
+      P (ops.foldl (fun s p => fitCall N conds p.1 p.2 s) s) from H ops _ hops h0
   intro ops
   induction ops with
   | nil => intro s _ h; exact h
-  | cons f ops ih =>
-    intro s hops hinv
-    exact ih _ (fun g hg => hops g (by simp [hg])) (fitCall_inv N conds wf f (hops f (by simp)) s hinv)
+  | cons p ops ih =>
+    intro s hops hs
+    exact ih _ (fun q hq => hops q (by simp [hq])) (hstep s p (hops p (by simp)) hs)
+
+theorem runHistory_append (N : Nat) (conds : Nat → List Nat) (ops : List (Nat × Nat)) (p : Nat × Nat) :
+    runHistory N conds (ops ++ [p]) = fitCall N conds p.1 p.2 (runHistory N conds ops) := by
+  simp [runHistory, List.foldl_append]
+
+theorem runHistory_inv (N : Nat) (conds : Nat → List Nat) (wf : WF conds)
+    (ops : List (Nat × Nat)) (hops : ∀ p ∈ ops, p.1 < N) : Inv N conds (runHistory N conds ops) :=
+  runHistory_induct N conds (Inv N conds) (init_inv N conds) ops (fun p => p.1 < N) hops
+    (fun s p hp hs => fitCall_inv N conds wf p.1 p.2 hp s hs)
 
 /-- **C14, history form.** After *any* sequence of public `fit` calls (any order, any
-multiplicity, i.e. including re-fits of the whole model), no fitted dependence function is
-stale: its last `_fit` saw the current version of every one of its conditioners. -/
+multiplicity, any data epochs, i.e. including re-fits of the whole model on new data), no fitted
+dependence function is stale: its last `_fit` saw the current version of every one of its
+conditioners. -/
 theorem no_stale_after_any_history (N : Nat) (conds : Nat → List Nat) (wf : WF conds)
-    (ops : List Nat) (hops : ∀ f ∈ ops, f < N) :
+    (ops : List (Nat × Nat)) (hops : ∀ p ∈ ops, p.1 < N) :
     let s := runHistory N conds ops
     ∀ h g, h < N → 0 < s.version h → g ∈ conds h → s.seen h g = s.version g := by
   intro s h g hh hv hg
@@ -333,8 +456,9 @@ theorem declaration_is_topological (decls : List (List Nat)) (h : checkDecls dec
     simp only [hd, List.all_eq_true, decide_eq_true_eq] at this
     exact this g hg
 
-theorem callback_congr (conds : Nat → List Nat) (r₁ r₂ : Nat → Mut → Mut) (f : Nat) (s : Mut) (h : Nat)
-    (hr : ∀ t, r₁ h t = r₂ h t) : callback conds r₁ f s h = callback conds r₂ f s h := by
+theorem callback_congr (conds : Nat → List Nat) (r₁ r₂ : Nat → Nat → Mut → Mut) (f : Nat) (s : Mut)
+    (h : Nat) (hr : ∀ e t, r₁ h e t = r₂ h e t) :
+    callback conds r₁ f s h = callback conds r₂ f s h := by
   unfold callback
   simp only [hr]
 
@@ -351,13 +475,13 @@ theorem foldl_congr_mem {β γ} (g₁ g₂ : β → γ → β) :
 /-- **the callback recursion terminates**: its depth is bounded by `N - f` (the declaration index
 strictly increases along callbacks), so any larger fuel gives the same result. -/
 theorem callbacks_terminate (N : Nat) (conds : Nat → List Nat) (wf : WF conds) :
-    ∀ fuel₁ fuel₂ f s, f < N → N - f ≤ fuel₁ → N - f ≤ fuel₂ →
-      doFit N conds fuel₁ f s = doFit N conds fuel₂ f s := by
+    ∀ fuel₁ fuel₂ f e s, f < N → N - f ≤ fuel₁ → N - f ≤ fuel₂ →
+      doFit N conds fuel₁ f e s = doFit N conds fuel₂ f e s := by
   intro fuel₁
   induction fuel₁ with
-  | zero => intro fuel₂ f s hf h1; omega
+  | zero => intro fuel₂ f e s hf h1; omega
   | succ a ih =>
-    intro fuel₂ f s hf h1 h2
+    intro fuel₂ f e s hf h1 h2
     cases fuel₂ with
     | zero => omega
     | succ b =>
@@ -366,7 +490,7 @@ theorem callbacks_terminate (N : Nat) (conds : Nat → List Nat) (wf : WF conds)
       intro t d hd
       obtain ⟨hdN, hfd⟩ := mem_dependents.mp hd
       have := wf d f hfd
-      exact callback_congr conds _ _ f t d (fun u => ih b d u hdN (by omega) (by omega))
+      exact callback_congr conds _ _ f t d (fun e' u => ih b d e' u hdN (by omega) (by omega))
 
 /-! ### liveness: once every function has been `fit`-called, every function is fitted -/
 
@@ -378,7 +502,7 @@ def MayOK (conds : Nat → List Nat) (s : Mut) (h : Nat) : Prop :=
 def FitOK (s : Mut) (h : Nat) : Prop := s.hasXY h = true → s.mayFit h = true → 0 < s.version h
 
 structure Mono (s t : Mut) : Prop where
-  xy : t.hasXY = s.hasXY
+  xy : t.xyEpoch = s.xyEpoch
   ver : ∀ h, s.version h ≤ t.version h
   may : ∀ h, s.mayFit h = true → t.mayFit h = true
 
@@ -386,7 +510,10 @@ theorem Mono.refl (s : Mut) : Mono s s := ⟨rfl, fun _ => Nat.le_refl _, fun _ 
 theorem Mono.trans {s t u : Mut} (a : Mono s t) (b : Mono t u) : Mono s u :=
   ⟨b.xy.trans a.xy, fun h => Nat.le_trans (a.ver h) (b.ver h), fun h hm => b.may h (a.may h hm)⟩
 
-theorem mono_bump (s : Mut) (f : Nat) : Mono s (bump s f) := by
+theorem Mono.hasXY {s t : Mut} (m : Mono s t) (h : Nat) : t.hasXY h = s.hasXY h := by
+  unfold Mut.hasXY; rw [m.xy]
+
+theorem mono_bump (s : Mut) (f e : Nat) : Mono s (bump s f e) := by
   refine ⟨rfl, ?_, fun _ h => h⟩
   intro h
   by_cases hf : h = f
@@ -405,23 +532,23 @@ theorem mono_allow (s : Mut) (f h : Nat) : Mono s (allow s f h) := by
     rw [upd_other _ _ _ _ hkh]; exact hk
 
 theorem doFit_live (N : Nat) (conds : Nat → List Nat) (wf : WF conds) :
-    ∀ fuel f s, f < N → N - f ≤ fuel → FcSub conds s → s.hasXY f = true →
-      let s' := doFit N conds fuel f s
+    ∀ fuel f e s, f < N → N - f ≤ fuel → FcSub conds s → s.hasXY f = true →
+      let s' := doFit N conds fuel f e s
       Mono s s' ∧ 0 < s'.version f ∧
       (∀ h, h < N → MayOK conds s h → MayOK conds s' h) ∧
       (∀ h, h < N → FitOK s h → FitOK s' h) := by
   intro fuel
   induction fuel with
-  | zero => intro f s hf hfuel; omega
+  | zero => intro f e s hf hfuel; omega
   | succ fuel ih =>
-    intro f s hf hfuel hsub hxy
+    intro f e s hf hfuel hsub hxy
     simp only [doFit]
     have loop : ∀ (ds : List Nat) (t : Mut), (∀ d ∈ ds, d < N ∧ f ∈ conds d) →
-        FcSub conds t → Mono (bump s f) t →
+        FcSub conds t → Mono (bump s f e) t →
         (∀ h, h < N → MayOK conds s h → MayOK conds t h ∨ h ∈ ds) →
         (∀ h, h < N → FitOK s h → FitOK t h) →
         let t' := ds.foldl (callback conds (doFit N conds fuel) f) t
-        Mono (bump s f) t' ∧
+        Mono (bump s f e) t' ∧
         (∀ h, h < N → MayOK conds s h → MayOK conds t' h) ∧
         (∀ h, h < N → FitOK s h → FitOK t' h) := by
       intro ds
@@ -437,7 +564,6 @@ theorem doFit_live (N : Nat) (conds : Nat → List Nat) (wf : WF conds) :
         intro t hds hsubt hmono hmay hfit
         have hd := hds d (by simp)
         have hdf : f < d := wf d f hd.2
-        rw [foldl_callback_cons _ _ _ _ _ _ hsubt hd.2]
         have ht2sub : FcSub conds (allow t f d) := allow_fcSub hsubt hd.2
         have hmayd : (allow t f d).mayFit d = true := upd_same _ _ _
         have hmay_allow : ∀ h, MayOK conds t h → MayOK conds (allow t f d) h := by
@@ -445,11 +571,13 @@ theorem doFit_live (N : Nat) (conds : Nat → List Nat) (wf : WF conds) :
           rcases hm with hm | hm
           · left; exact (mono_allow t f d).may h hm
           · right; exact hm
-        by_cases hxyd : t.hasXY d = true
-        · rw [if_pos hxyd]
-          obtain ⟨m3, v3, may3, fit3⟩ := ih d (allow t f d) hd.1 (by omega) ht2sub hxyd
-          apply ihds (doFit N conds fuel d (allow t f d)) (fun h hh => hds h (by simp [hh]))
-            (doFit_fcSub N conds fuel d _ ht2sub) ((hmono.trans (mono_allow t f d)).trans m3)
+        cases hxd : t.xyEpoch d with
+        | some e' =>
+          rw [foldl_callback_cons_some _ _ _ _ _ _ _ hsubt hd.2 hxd]
+          have hxyd : (allow t f d).hasXY d = true := hasXY_some (s := allow t f d) hxd
+          obtain ⟨m3, v3, may3, fit3⟩ := ih d e' (allow t f d) hd.1 (by omega) ht2sub hxyd
+          apply ihds (doFit N conds fuel d e' (allow t f d)) (fun h hh => hds h (by simp [hh]))
+            (doFit_fcSub N conds fuel d e' _ ht2sub) ((hmono.trans (mono_allow t f d)).trans m3)
           · intro h hh hm
             rcases hmay h hh hm with ok | mem
             · left; exact may3 h hh (hmay_allow h ok)
@@ -463,7 +591,8 @@ theorem doFit_live (N : Nat) (conds : Nat → List Nat) (wf : WF conds) :
               intro hx hm
               have : (allow t f d).mayFit h = t.mayFit h := upd_other _ _ _ _ hhd
               exact hfit h hh hf' hx (by rw [← this]; exact hm)
-        · rw [if_neg hxyd]
+        | none =>
+          rw [foldl_callback_cons_none _ _ _ _ _ _ hsubt hd.2 hxd]
           apply ihds (allow t f d) (fun h hh => hds h (by simp [hh])) ht2sub
             (hmono.trans (mono_allow t f d))
           · intro h hh hm
@@ -474,12 +603,16 @@ theorem doFit_live (N : Nat) (conds : Nat → List Nat) (wf : WF conds) :
               · right; exact h'
           · intro h hh hf'
             by_cases hhd : h = d
-            · subst hhd; intro hx _; exact absurd hx hxyd
+            · subst hhd
+              intro hx _
+              have hx' : t.hasXY h = true := hx
+              rw [hasXY_none hxd] at hx'
+              cases hx'
             · intro hx hm
               have : (allow t f d).mayFit h = t.mayFit h := upd_other _ _ _ _ hhd
               exact hfit h hh hf' hx (by rw [← this]; exact hm)
-    have hb := mono_bump s f
-    obtain ⟨m, may', fit'⟩ := loop (dependents N conds f) (bump s f)
+    have hb := mono_bump s f e
+    obtain ⟨m, may', fit'⟩ := loop (dependents N conds f) (bump s f e)
       (fun h hh => mem_dependents.mp hh) hsub (Mono.refl _)
       (by
         intro h hh hm
@@ -496,7 +629,7 @@ theorem doFit_live (N : Nat) (conds : Nat → List Nat) (wf : WF conds) :
         intro h hh hf' hx hm
         exact Nat.lt_of_lt_of_le (hf' hx hm) (hb.ver h))
     refine ⟨hb.trans m, ?_, may', fit'⟩
-    have h1 : (bump s f).version f = s.version f + 1 := upd_same _ _ _
+    have h1 : (bump s f e).version f = s.version f + 1 := upd_same _ _ _
     have := m.ver f
     omega
 
@@ -509,91 +642,88 @@ theorem init_live (N : Nat) (conds : Nat → List Nat) : Live N conds (init cond
   refine ⟨?_, ?_, ?_, ?_⟩
   · intro h g hg; simp [init] at hg
   · intro h _; right; intro g _; rfl
-  · intro h _ hx; simp [init] at hx
+  · intro h _ hx; simp [init, Mut.hasXY] at hx
   · intro h hc; simp [init, hc]
 
-theorem fitCall_live (N : Nat) (conds : Nat → List Nat) (wf : WF conds) (f : Nat) (hf : f < N)
+theorem fitCall_live (N : Nat) (conds : Nat → List Nat) (wf : WF conds) (f e : Nat) (hf : f < N)
     (s : Mut) (hl : Live N conds s) :
-    Live N conds (fitCall N conds f s) ∧ (fitCall N conds f s).hasXY f = true ∧
-      (∀ h, s.hasXY h = true → (fitCall N conds f s).hasXY h = true) := by
+    Live N conds (fitCall N conds f e s) ∧ (fitCall N conds f e s).hasXY f = true ∧
+      (∀ h, s.hasXY h = true → (fitCall N conds f e s).hasXY h = true) := by
   obtain ⟨hsub, hmay, hfit, hroot⟩ := hl
-  unfold fitCall
-  dsimp only
-  have hxyf : (upd s.hasXY f true) f = true := upd_same _ _ _
-  have hxymono : ∀ h, s.hasXY h = true → (upd s.hasXY f true) h = true := by
-    intro h hx
-    by_cases hhf : h = f
-    · subst hhf; exact hxyf
-    · rw [upd_other _ _ _ _ hhf]; exact hx
-  have hsub1 : FcSub conds { s with hasXY := upd s.hasXY f true } := hsub
+  rw [fitCall_eq]
+  have hxyf := store_hasXY_self s f e
+  have hxymono := store_hasXY_mono s f e
+  have hsub1 : FcSub conds (store s f e) := hsub
   by_cases hm : s.mayFit f = true
   · rw [if_pos hm]
     obtain ⟨m, v, may', fit'⟩ :=
-      doFit_live N conds wf N f { s with hasXY := upd s.hasXY f true } hf (by omega) hsub1 hxyf
-    refine ⟨⟨doFit_fcSub N conds N f _ hsub1, ?_, ?_, ?_⟩, ?_, ?_⟩
+      doFit_live N conds wf N f e (store s f e) hf (by omega) hsub1 hxyf
+    refine ⟨⟨doFit_fcSub N conds N f e _ hsub1, ?_, ?_, ?_⟩, ?_, ?_⟩
     · intro h hh; exact may' h hh (hmay h hh)
     · intro h hh
       by_cases hhf : h = f
       · subst hhf; intro _ _; exact v
       · apply fit' h hh
         intro hx hmm
-        have : (upd s.hasXY f true) h = s.hasXY h := upd_other _ _ _ _ hhf
-        exact hfit h hh (by rw [← this]; exact hx) hmm
+        exact hfit h hh (by rw [← store_hasXY_other s f e h hhf]; exact hx) hmm
     · intro h hc; exact m.may h (hroot h hc)
-    · rw [m.xy]; exact hxyf
-    · intro h hx; rw [m.xy]; exact hxymono h hx
+    · rw [m.hasXY]; exact hxyf
+    · intro h hx; rw [m.hasXY]; exact hxymono h hx
   · rw [if_neg hm]
     refine ⟨⟨hsub1, hmay, ?_, hroot⟩, hxyf, hxymono⟩
     intro h hh
     by_cases hhf : h = f
     · subst hhf; intro _ hmm; exact absurd hmm hm
     · intro hx hmm
-      have : (upd s.hasXY f true) h = s.hasXY h := upd_other _ _ _ _ hhf
-      exact hfit h hh (by rw [← this]; exact hx) hmm
+      exact hfit h hh (by rw [← store_hasXY_other s f e h hhf]; exact hx) hmm
 
 theorem runHistory_live (N : Nat) (conds : Nat → List Nat) (wf : WF conds)
-    (ops : List Nat) (hops : ∀ f ∈ ops, f < N) :
-    Live N conds (runHistory N conds ops) ∧ ∀ h ∈ ops, (runHistory N conds ops).hasXY h = true := by
+    (ops : List (Nat × Nat)) (hops : ∀ p ∈ ops, p.1 < N) :
+    Live N conds (runHistory N conds ops) ∧
+      ∀ p ∈ ops, (runHistory N conds ops).hasXY p.1 = true := by
   unfold runHistory
-  suffices H : ∀ (ops : List Nat) (s : Mut), (∀ f ∈ ops, f < N) → Live N conds s →
-      Live N conds (ops.foldl (fun s f => fitCall N conds f s) s) ∧
-      ∀ h, (s.hasXY h = true ∨ h ∈ ops) →
-        (ops.foldl (fun s f => fitCall N conds f s) s).hasXY h = true by
+  suffices H : ∀ (ops : List (Nat × Nat)) (s : Mut), (∀ p ∈ ops, p.1 < N) → Live N conds s →
+      Live N conds (ops.foldl (fun s p => fitCall N conds p.1 p.2 s) s) ∧
+      ∀ h, (s.hasXY h = true ∨ ∃ p ∈ ops, p.1 = h) →
+        (ops.foldl (fun s p => fitCall N conds p.1 p.2 s) s).hasXY h = true by
     obtain ⟨a, b⟩ := H ops _ hops (init_live N conds)
-    exact ⟨a, fun h hh => b h (Or.inr hh)⟩
+    exact ⟨a, fun p hp => b p.1 (Or.inr ⟨p, hp, rfl⟩)⟩
   intro ops
   induction ops with
   | nil =>
     intro s _ hl
     refine ⟨hl, ?_⟩
     intro h hh
-    rcases hh with hh | hh
+    rcases hh with hh | ⟨p, hp, _⟩
     · exact hh
-    · cases hh
-  | cons f ops ih =>
+    · cases hp
+  | cons q ops ih =>
     intro s hops hl
-    obtain ⟨hl', hxf, hxm⟩ := fitCall_live N conds wf f (hops f (by simp)) s hl
-    obtain ⟨a, b⟩ := ih (fitCall N conds f s) (fun g hg => hops g (by simp [hg])) hl'
+    obtain ⟨hl', hxf, hxm⟩ := fitCall_live N conds wf q.1 q.2 (hops q (by simp)) s hl
+    obtain ⟨a, b⟩ := ih (fitCall N conds q.1 q.2 s) (fun g hg => hops g (by simp [hg])) hl'
     refine ⟨a, ?_⟩
     intro h hh
     apply b h
-    rcases hh with hh | hh
+    rcases hh with hh | ⟨p, hp, rfl⟩
     · left; exact hxm h hh
-    · rcases List.mem_cons.mp hh with rfl | hh
+    · rcases List.mem_cons.mp hp with rfl | hp
       · left; exact hxf
-      · right; exact hh
+      · right; exact ⟨p, hp, rfl⟩
 
 /-- **liveness.**  If every declared function has been `fit`-called at least once (in any order,
-any number of times), every function has been fitted. -/
+any number of times, with any data), every function has been fitted. -/
 theorem all_called_all_fitted (N : Nat) (conds : Nat → List Nat) (wf : WF conds)
-    (ops : List Nat) (hops : ∀ f ∈ ops, f < N) (hall : ∀ f, f < N → f ∈ ops) :
+    (ops : List (Nat × Nat)) (hops : ∀ p ∈ ops, p.1 < N) (hall : ∀ f, f < N → ∃ p ∈ ops, p.1 = f) :
     ∀ h, h < N → 0 < (runHistory N conds ops).version h := by
   obtain ⟨⟨_, hmay, hfit, hroot⟩, hxy⟩ := runHistory_live N conds wf ops hops
   intro h
   induction h using Nat.strong_induction_on with
   | _ h ih =>
     intro hh
-    apply hfit h hh (hxy h (hall h hh))
+    have hxyh : (runHistory N conds ops).hasXY h = true := by
+      obtain ⟨p, hp, rfl⟩ := hall h hh
+      exact hxy p hp
+    apply hfit h hh hxyh
     cases hc : conds h with
     | nil => exact hroot h hc
     | cons g gs =>
@@ -617,7 +747,7 @@ theorem logInv_of_eq {s t : Mut} (hv : t.version = s.version) (hs : t.seen = s.s
   unfold LogInv at *
   rw [hv, hs, hl]; exact h
 
-theorem logInv_bump (s : Mut) (f : Nat) (h : LogInv s) : LogInv (bump s f) := by
+theorem logInv_bump (s : Mut) (f e : Nat) (h : LogInv s) : LogInv (bump s f e) := by
   obtain ⟨hc, hs⟩ := h
   constructor
   · intro k
@@ -635,7 +765,7 @@ theorem logInv_bump (s : Mut) (f : Nat) (h : LogInv s) : LogInv (bump s f) := by
         simp [List.dropWhile]
       rw [this, List.tail_cons, hc]
     · have hv' : 0 < s.version h := by
-        have : (bump s f).version h = s.version h := upd_other _ _ _ _ hk
+        have : (bump s f e).version h = s.version h := upd_other _ _ _ _ hk
         rw [← this]; exact hv
       have : (f :: s.log).dropWhile (fun e => e != h) = s.log.dropWhile (fun e => e != h) := by
         have : (f != h) = true := by simpa using fun e : f = h => hk e.symm
@@ -643,53 +773,29 @@ theorem logInv_bump (s : Mut) (f : Nat) (h : LogInv s) : LogInv (bump s f) := by
       rw [upd_other _ _ _ _ hk, this]
       exact hs h g hv'
 
-theorem doFit_logInv (N : Nat) (conds : Nat → List Nat) :
-    ∀ fuel f s, LogInv s → LogInv (doFit N conds fuel f s) := by
-  intro fuel
-  induction fuel with
-  | zero => intro f s hs; exact hs
-  | succ fuel ih =>
-    intro f s hs
-    simp only [doFit]
-    have loop : ∀ (ds : List Nat) (t : Mut), LogInv t →
-        LogInv (ds.foldl (callback conds (doFit N conds fuel) f) t) := by
-      intro ds
-      induction ds with
-      | nil => intro t ht; exact ht
-      | cons d ds ihds =>
-        intro t ht
-        rw [List.foldl_cons]
-        apply ihds
-        unfold callback
-        dsimp only
-        split
-        · split
-          · exact ih _ _ (logInv_of_eq rfl rfl rfl ht)
-          · exact logInv_of_eq rfl rfl rfl ht
-        · exact logInv_of_eq rfl rfl rfl ht
-    exact loop _ _ (logInv_bump s f hs)
+theorem doFit_logInv (N : Nat) (conds : Nat → List Nat) (fuel f e : Nat) (s : Mut) (h : LogInv s) :
+    LogInv (doFit N conds fuel f e s) := by
+  have key := doFit_preserves N conds LogInv (fun s f e _ _ h => logInv_bump s f e h)
+    (fun _ _ _ h => logInv_of_eq rfl rfl rfl h) (fun _ _ _ h => logInv_of_eq rfl rfl rfl h)
+  cases fuel with
+  | zero => exact h
+  | succ fuel => exact key.2 fuel f e s (logInv_bump s f e h)
 
-theorem runHistory_logInv (N : Nat) (conds : Nat → List Nat) (ops : List Nat) :
-    LogInv (runHistory N conds ops) := by
-  unfold runHistory
-  suffices H : ∀ (ops : List Nat) (s : Mut), LogInv s →
-      LogInv (ops.foldl (fun s f => fitCall N conds f s) s) from
-    H ops _ ⟨fun _ => rfl, fun h g hv => by simp [init] at hv⟩
-  intro ops
-  induction ops with
-  | nil => intro s h; exact h
-  | cons f ops ih =>
-    intro s hs
-    rw [List.foldl_cons]
-    apply ih
-    unfold fitCall
-    dsimp only
-    split
-    · exact doFit_logInv N conds N f _ (logInv_of_eq rfl rfl rfl hs)
-    · exact logInv_of_eq rfl rfl rfl hs
+theorem fitCall_logInv (N : Nat) (conds : Nat → List Nat) (f e : Nat) (s : Mut) (h : LogInv s) :
+    LogInv (fitCall N conds f e s) := by
+  rw [fitCall_eq]
+  have h1 : LogInv (store s f e) := logInv_of_eq rfl rfl rfl h
+  split
+  · exact doFit_logInv N conds N f e _ h1
+  · exact h1
+
+theorem runHistory_logInv (N : Nat) (conds : Nat → List Nat) (ops : List (Nat × Nat)) :
+    LogInv (runHistory N conds ops) :=
+  runHistory_induct N conds LogInv ⟨fun _ => rfl, fun h g hv => by simp [init] at hv⟩ ops
+    (fun _ => True) (fun _ _ => trivial) (fun s p _ hs => fitCall_logInv N conds p.1 p.2 s hs)
 
 /-- the version counter of `f` is the number of `_fit` executions of `f` in the log -/
-theorem version_eq_count_log (N : Nat) (conds : Nat → List Nat) (ops : List Nat) (f : Nat) :
+theorem version_eq_count_log (N : Nat) (conds : Nat → List Nat) (ops : List (Nat × Nat)) (f : Nat) :
     (runHistory N conds ops).version f = (runHistory N conds ops).log.count f :=
   (runHistory_logInv N conds ops).1 f
 
@@ -711,7 +817,7 @@ theorem count_dropWhile_tail (g h : Nat) (hgh : g ≠ h) (l : List Nat) :
 first) of any history, no `_fit` of a conditioner `g` of `h` lies after the last `_fit` of `h`:
 the parameters `h` ends up with were obtained after the last fit of each of its conditioners. -/
 theorem final_fit_after_conditioners (N : Nat) (conds : Nat → List Nat) (wf : WF conds)
-    (ops : List Nat) (hops : ∀ f ∈ ops, f < N) :
+    (ops : List (Nat × Nat)) (hops : ∀ p ∈ ops, p.1 < N) :
     let s := runHistory N conds ops
     ∀ h g, h < N → g ∈ conds h → h ∈ s.log → g ∉ s.log.takeWhile (fun e => e != h) := by
   show ∀ h g, h < N → g ∈ conds h → h ∈ (runHistory N conds ops).log →
@@ -746,7 +852,7 @@ theorem final_fit_after_conditioners (N : Nat) (conds : Nat → List Nat) (wf : 
 is fitted, every conditioner is fitted, and every function's last fit saw the final version of
 each of its conditioners — whatever the order and multiplicity of the calls. -/
 theorem final_state_consistent (N : Nat) (conds : Nat → List Nat) (wf : WF conds)
-    (ops : List Nat) (hops : ∀ f ∈ ops, f < N) (hall : ∀ f, f < N → f ∈ ops) :
+    (ops : List (Nat × Nat)) (hops : ∀ p ∈ ops, p.1 < N) (hall : ∀ f, f < N → ∃ p ∈ ops, p.1 = f) :
     let s := runHistory N conds ops
     ∀ h, h < N → 0 < s.version h ∧ ∀ g ∈ conds h, 0 < s.version g ∧ s.seen h g = s.version g := by
   intro s h hh
@@ -755,6 +861,506 @@ theorem final_state_consistent (N : Nat) (conds : Nat → List Nat) (wf : WF con
   intro g hg
   have hgh := wf h g hg
   exact ⟨hv g (by omega), no_stale_after_any_history N conds wf ops hops h g hh (hv h hh) hg⟩
+
+/-! ### the inputs of every `_fit`: which pairs, which start values -/
+
+/-- epoch of the latest public `fit` call on `h` in a history (specification function; what it
+computes is pinned down by `latestCall_eq_some_iff` and `latestCall_eq_none_iff`) -/
+def latestCall (ops : List (Nat × Nat)) (h : Nat) : Option Nat :=
+  ops.foldl (fun acc p => if p.1 = h then some p.2 else acc) none
+
+theorem latestCall_append (ops : List (Nat × Nat)) (p : Nat × Nat) (h : Nat) :
+    latestCall (ops ++ [p]) h = if p.1 = h then some p.2 else latestCall ops h := by
+  simp [latestCall, List.foldl_append]
+
+theorem latestCall_eq_none_iff (ops : List (Nat × Nat)) (h : Nat) :
+    latestCall ops h = none ↔ ∀ p ∈ ops, p.1 ≠ h := by
+  induction ops using List.reverseRecOn with
+  | nil => simp [latestCall]
+  | append_singleton ops p ih =>
+    rw [latestCall_append]
+    by_cases hp : p.1 = h
+    · rw [if_pos hp]
+      constructor
+      · intro hc; cases hc
+      · intro hall; exact absurd hp (hall p (by simp))
+    · rw [if_neg hp, ih]
+      constructor
+      · intro hall q hq
+        rcases List.mem_append.mp hq with hq | hq
+        · exact hall q hq
+        · have : q = p := by simpa using hq
+          rw [this]; exact hp
+      · intro hall q hq; exact hall q (List.mem_append_left _ hq)
+
+/-- `latestCall` really is the latest call: `(h, e)` occurs in the history and no call on `h`
+follows it -/
+theorem latestCall_eq_some_iff (ops : List (Nat × Nat)) (h e : Nat) :
+    latestCall ops h = some e ↔
+      ∃ pre post, ops = pre ++ (h, e) :: post ∧ ∀ p ∈ post, p.1 ≠ h := by
+  induction ops using List.reverseRecOn with
+  | nil => simp [latestCall]
+  | append_singleton ops p ih =>
+    rw [latestCall_append]
+    by_cases hp : p.1 = h
+    · rw [if_pos hp]
+      constructor
+      · intro he
+        have he' : p.2 = e := by simpa using he
+        refine ⟨ops, [], ?_, by simp⟩
+        have : p = (h, e) := by rw [← hp, ← he']
+        rw [this]
+      · rintro ⟨pre, post, heq, hpost⟩
+        rcases List.eq_nil_or_concat post with rfl | ⟨post', q, rfl⟩
+        · have := (List.append_inj' heq (by simp)).2
+          have : p = (h, e) := by simpa using this
+          rw [this]
+        · exfalso
+          rw [List.concat_eq_append] at heq hpost
+          have heq' : ops ++ [p] = (pre ++ (h, e) :: post') ++ [q] := by
+            rw [heq]; simp
+          have hq : p = q := by simpa using (List.append_inj' heq' (by simp)).2
+          exact hpost q (by simp) (hq ▸ hp)
+    · rw [if_neg hp, ih]
+      constructor
+      · rintro ⟨pre, post, rfl, hpost⟩
+        refine ⟨pre, post ++ [p], by simp, ?_⟩
+        intro q hq
+        rcases List.mem_append.mp hq with hq | hq
+        · exact hpost q hq
+        · have : q = p := by simpa using hq
+          rw [this]; exact hp
+      · rintro ⟨pre, post, heq, hpost⟩
+        rcases List.eq_nil_or_concat post with rfl | ⟨post', q, rfl⟩
+        · exfalso
+          have := (List.append_inj' heq (by simp)).2
+          have : p = (h, e) := by simpa using this
+          exact hp (by rw [this])
+        · rw [List.concat_eq_append] at heq hpost
+          have heq' : ops ++ [p] = (pre ++ (h, e) :: post') ++ [q] := by
+            rw [heq]; simp
+          have h1 := (List.append_inj' heq' (by simp)).1
+          exact ⟨pre, post', h1, fun r hr => hpost r (List.mem_append_left _ hr)⟩
+
+theorem latestCall_mem (ops : List (Nat × Nat)) (h e : Nat) (hl : latestCall ops h = some e) :
+    (h, e) ∈ ops := by
+  obtain ⟨pre, post, rfl, _⟩ := (latestCall_eq_some_iff ops h e).mp hl
+  simp
+
+/-- a history that ends with calls of epoch `r` on `h` (and on whatever else) -/
+theorem latestCall_suffix (pre rnd : List (Nat × Nat)) (h r : Nat)
+    (hr : ∀ p ∈ rnd, p.1 = h → p.2 = r) (hmem : ∃ p ∈ rnd, p.1 = h) :
+    latestCall (pre ++ rnd) h = some r := by
+  unfold latestCall
+  rw [List.foldl_append]
+  generalize pre.foldl (fun acc p => if p.1 = h then some p.2 else acc) none = acc
+  suffices H : ∀ (l : List (Nat × Nat)) (acc : Option Nat), (∀ p ∈ l, p.1 = h → p.2 = r) →
+      (acc = some r ∨ ∃ p ∈ l, p.1 = h) →
+      l.foldl (fun acc p => if p.1 = h then some p.2 else acc) acc = some r from
+    H rnd acc hr (Or.inr hmem)
+  intro l
+  induction l with
+  | nil =>
+    intro acc _ hacc
+    rcases hacc with hacc | ⟨p, hp, _⟩
+    · exact hacc
+    · cases hp
+  | cons q l ih =>
+    intro acc hr hacc
+    rw [List.foldl_cons]
+    apply ih _ (fun p hp => hr p (by simp [hp]))
+    by_cases hq : q.1 = h
+    · left; rw [if_pos hq, hr q (by simp) hq]
+    · rw [if_neg hq]
+      rcases hacc with hacc | ⟨p, hp, hph⟩
+      · left; exact hacc
+      · rcases List.mem_cons.mp hp with rfl | hp
+        · exact absurd hph hq
+        · right; exact ⟨p, hp, hph⟩
+
+/-- what the public `fit` stores -/
+theorem fitCall_xyEpoch (N : Nat) (conds : Nat → List Nat) (f e : Nat) (s : Mut) :
+    (fitCall N conds f e s).xyEpoch = upd s.xyEpoch f (some e) ∧
+    (fitCall N conds f e s).calls = s.calls + 1 := by
+  rw [fitCall_eq]
+  split
+  · exact doFit_frame N conds N f e (store s f e)
+  · exact ⟨rfl, rfl⟩
+
+theorem runHistory_calls (N : Nat) (conds : Nat → List Nat) (ops : List (Nat × Nat)) :
+    (runHistory N conds ops).calls = ops.length := by
+  induction ops using List.reverseRecOn with
+  | nil => rfl
+  | append_singleton ops p ih =>
+    rw [runHistory_append, (fitCall_xyEpoch N conds p.1 p.2 _).2, ih]; simp
+
+/-- **stored pairs = pairs of the latest public call.**  After any history the pairs stored in
+`h.x, h.y` are those handed over by the latest public `fit` call on `h` (none if there was no
+such call); callbacks and cascades never touch them. -/
+theorem stored_data_is_latest_call (N : Nat) (conds : Nat → List Nat) (ops : List (Nat × Nat))
+    (h : Nat) : (runHistory N conds ops).xyEpoch h = latestCall ops h := by
+  induction ops using List.reverseRecOn with
+  | nil => rfl
+  | append_singleton ops p ih =>
+    rw [runHistory_append, (fitCall_xyEpoch N conds p.1 p.2 _).1, latestCall_append]
+    by_cases hp : p.1 = h
+    · rw [if_pos hp, ← hp, upd_same]
+    · rw [if_neg hp, upd_other _ _ _ _ (fun e => hp e.symm), ih]
+
+/-- the `_fit` events of one cascade: each ran on the pairs stored for its function, during the
+current public call -/
+theorem doFit_events (N : Nat) (conds : Nat → List Nat) (fuel f e : Nat) (s : Mut)
+    (hx : s.xyEpoch f = some e) (hm : s.mayFit f = true) :
+    ∃ new, (doFit N conds fuel f e s).evlog = new ++ s.evlog ∧
+      ∀ ev ∈ new, s.xyEpoch ev.fn = some ev.data ∧ ev.call = s.calls := by
+  have key := (doFit_preserves N conds
+    (fun t => t.xyEpoch = s.xyEpoch ∧ t.calls = s.calls ∧
+      ∃ new, t.evlog = new ++ s.evlog ∧ ∀ ev ∈ new, s.xyEpoch ev.fn = some ev.data ∧ ev.call = s.calls)
+    ?_ (fun _ _ _ h => h) (fun _ _ _ h => h)).1 fuel f e s hx hm ⟨rfl, rfl, [], rfl, by simp⟩
+  · exact key.2.2
+  · rintro t f' e' hx' _ ⟨hxy, hc, new, hnew, hev⟩
+    refine ⟨hxy, hc, { fn := f', data := e', p0 := p0Token t f', call := t.calls } :: new, ?_, ?_⟩
+    · show _ :: t.evlog = _
+      rw [hnew]; rfl
+    · intro ev hev'
+      rcases List.mem_cons.mp hev' with rfl | hev'
+      · exact ⟨by rw [← hxy]; exact hx', hc⟩
+      · exact hev ev hev'
+
+theorem fitCall_events (N : Nat) (conds : Nat → List Nat) (f e : Nat) (s : Mut) :
+    ∃ new, (fitCall N conds f e s).evlog = new ++ s.evlog ∧
+      ∀ ev ∈ new, (fitCall N conds f e s).xyEpoch ev.fn = some ev.data ∧ ev.call = s.calls + 1 := by
+  have hfr := (fitCall_xyEpoch N conds f e s).1
+  rw [hfr]
+  rw [fitCall_eq]
+  by_cases hm : s.mayFit f = true
+  · rw [if_pos hm]
+    exact doFit_events N conds N f e (store s f e) (upd_same _ _ _) hm
+  · rw [if_neg hm]
+    exact ⟨[], rfl, by simp⟩
+
+/-- **every `_fit` uses the stored pairs.**  The `_fit` executions caused by one more public call
+(the direct one and all callback-triggered ones, at any depth) each received the pairs that are
+stored for their function at that moment, and these are the pairs of the latest public `fit`
+call on that function — never those of an earlier epoch. -/
+theorem fit_uses_stored_data (N : Nat) (conds : Nat → List Nat) (ops : List (Nat × Nat))
+    (p : Nat × Nat) :
+    ∃ new, (runHistory N conds (ops ++ [p])).evlog = new ++ (runHistory N conds ops).evlog ∧
+      ∀ ev ∈ new, (runHistory N conds (ops ++ [p])).xyEpoch ev.fn = some ev.data ∧
+        latestCall (ops ++ [p]) ev.fn = some ev.data ∧ ev.call = ops.length + 1 := by
+  obtain ⟨new, hnew, hev⟩ := fitCall_events N conds p.1 p.2 (runHistory N conds ops)
+  rw [← runHistory_append, runHistory_calls] at hev
+  rw [← runHistory_append] at hnew
+  refine ⟨new, hnew, fun ev hmem => ?_⟩
+  obtain ⟨h1, h2⟩ := hev ev hmem
+  exact ⟨h1, by rw [← stored_data_is_latest_call N conds]; exact h1, h2⟩
+
+/-- **whole-history form.**  Every `_fit` event in the log of any history ran during some public
+call number `ev.call` and used the pairs of the latest public call on its function among the
+first `ev.call` calls. -/
+theorem every_fit_used_latest_call_data (N : Nat) (conds : Nat → List Nat)
+    (ops : List (Nat × Nat)) :
+    ∀ ev ∈ (runHistory N conds ops).evlog, 1 ≤ ev.call ∧ ev.call ≤ ops.length ∧
+      latestCall (ops.take ev.call) ev.fn = some ev.data := by
+  induction ops using List.reverseRecOn with
+  | nil => intro ev hev; simp [runHistory, init] at hev
+  | append_singleton ops p ih =>
+    obtain ⟨new, hnew, hev⟩ := fit_uses_stored_data N conds ops p
+    intro ev hmem
+    rw [hnew] at hmem
+    rcases List.mem_append.mp hmem with hmem | hmem
+    · obtain ⟨_, h2, h3⟩ := hev ev hmem
+      refine ⟨by omega, by simp [h3], ?_⟩
+      rw [h3, List.take_of_length_le (by simp)]
+      exact h2
+    · obtain ⟨h1, h2, h3⟩ := ih ev hmem
+      refine ⟨h1, by simp; omega, ?_⟩
+      rw [List.take_append_of_le_length h2]
+      exact h3
+
+/-- log invariants that every step keeps: the detailed log refines the plain one, `lastData` is
+the newest event's data, `_p0` is captured exactly at the first `_fit` and is the constructor's
+parameter values (token 0), every event used that token -/
+structure EvInv (s : Mut) : Prop where
+  fns : s.evlog.map (fun ev => ev.fn) = s.log
+  last : ∀ h, s.lastData h = (s.evlog.find? (fun ev => ev.fn == h)).map (fun ev => ev.data)
+  never : ∀ h, s.version h = 0 → s.p0At h = none ∧ s.lastData h = none
+  once : ∀ h, 0 < s.version h → s.p0At h = some 0 ∧ (s.lastData h).isSome = true
+  p0ev : ∀ ev ∈ s.evlog, ev.p0 = 0 ∧ s.p0At ev.fn = some 0
+
+theorem evInv_of_eq {s t : Mut} (hv : t.version = s.version) (hl : t.log = s.log)
+    (hd : t.lastData = s.lastData) (hp : t.p0At = s.p0At) (he : t.evlog = s.evlog)
+    (h : EvInv s) : EvInv t := by
+  obtain ⟨a, b, c, d, e⟩ := h
+  constructor
+  · rw [he, hl]; exact a
+  · rw [hd, he]; exact b
+  · rw [hv, hp, hd]; exact c
+  · rw [hv, hp, hd]; exact d
+  · rw [he, hp]; exact e
+
+theorem p0Token_zero {s : Mut} (h : EvInv s) (f : Nat) : p0Token s f = 0 := by
+  unfold p0Token
+  by_cases hv : s.version f = 0
+  · rw [(h.never f hv).1]; exact hv
+  · rw [(h.once f (by omega)).1]
+
+theorem evInv_bump (s : Mut) (f e : Nat) (h : EvInv s) : EvInv (bump s f e) := by
+  have htok := p0Token_zero h f
+  constructor
+  · show ({ fn := f, data := e, p0 := p0Token s f, call := s.calls } :: s.evlog).map
+      (fun ev => ev.fn) = f :: s.log
+    rw [List.map_cons, h.fns]
+  · intro k
+    show upd s.lastData f (some e) k =
+      (({ fn := f, data := e, p0 := p0Token s f, call := s.calls } :: s.evlog).find?
+        (fun ev => ev.fn == k)).map (fun ev => ev.data)
+    by_cases hk : k = f
+    · subst hk
+      rw [upd_same, List.find?_cons_of_pos (by simp)]; rfl
+    · rw [upd_other _ _ _ _ hk, List.find?_cons_of_neg (by simpa using fun e' : f = k => hk e'.symm)]
+      exact h.last k
+  · intro k hv
+    have hk : k ≠ f := by
+      intro e'; subst e'
+      have : (bump s k e).version k = s.version k + 1 := upd_same _ _ _
+      omega
+    have hv' : s.version k = 0 := by
+      have : (bump s f e).version k = s.version k := upd_other _ _ _ _ hk
+      rw [← this]; exact hv
+    show upd s.p0At f (some (p0Token s f)) k = none ∧ upd s.lastData f (some e) k = none
+    rw [upd_other _ _ _ _ hk, upd_other _ _ _ _ hk]
+    exact h.never k hv'
+  · intro k hv
+    show upd s.p0At f (some (p0Token s f)) k = some 0 ∧
+      (upd s.lastData f (some e) k).isSome = true
+    by_cases hk : k = f
+    · subst hk
+      rw [upd_same, upd_same, htok]; exact ⟨rfl, rfl⟩
+    · have hv' : 0 < s.version k := by
+        have : (bump s f e).version k = s.version k := upd_other _ _ _ _ hk
+        rw [← this]; exact hv
+      rw [upd_other _ _ _ _ hk, upd_other _ _ _ _ hk]
+      exact h.once k hv'
+  · intro ev hev
+    have hev' : ev ∈ { fn := f, data := e, p0 := p0Token s f, call := s.calls } :: s.evlog := hev
+    show ev.p0 = 0 ∧ upd s.p0At f (some (p0Token s f)) ev.fn = some 0
+    rcases List.mem_cons.mp hev' with rfl | hold
+    · exact ⟨htok, by rw [upd_same, htok]⟩
+    · refine ⟨(h.p0ev ev hold).1, ?_⟩
+      by_cases hk : ev.fn = f
+      · rw [hk, upd_same, htok]
+      · rw [upd_other _ _ _ _ hk]; exact (h.p0ev ev hold).2
+
+theorem doFit_evInv (N : Nat) (conds : Nat → List Nat) (fuel f e : Nat) (s : Mut) (h : EvInv s) :
+    EvInv (doFit N conds fuel f e s) := by
+  have key := doFit_preserves N conds EvInv (fun s f e _ _ h => evInv_bump s f e h)
+    (fun s _ _ h => evInv_of_eq (s := s) rfl rfl rfl rfl rfl h)
+    (fun s _ _ h => evInv_of_eq (s := s) rfl rfl rfl rfl rfl h)
+  cases fuel with
+  | zero => exact h
+  | succ fuel => exact key.2 fuel f e s (evInv_bump s f e h)
+
+theorem fitCall_evInv (N : Nat) (conds : Nat → List Nat) (f e : Nat) (s : Mut) (h : EvInv s) :
+    EvInv (fitCall N conds f e s) := by
+  rw [fitCall_eq]
+  have h1 : EvInv (store s f e) := evInv_of_eq (s := s) rfl rfl rfl rfl rfl h
+  split
+  · exact doFit_evInv N conds N f e _ h1
+  · exact h1
+
+theorem init_evInv (conds : Nat → List Nat) : EvInv (init conds) := by
+  constructor
+  · rfl
+  · intro h; rfl
+  · intro h _; exact ⟨rfl, rfl⟩
+  · intro h hv; simp [init] at hv
+  · intro ev hev; simp [init] at hev
+
+theorem runHistory_evInv (N : Nat) (conds : Nat → List Nat) (ops : List (Nat × Nat)) :
+    EvInv (runHistory N conds ops) :=
+  runHistory_induct N conds EvInv (init_evInv conds) ops
+    (fun _ => True) (fun _ _ => trivial) (fun s p _ hs => fitCall_evInv N conds p.1 p.2 s hs)
+
+/-- **start values are fixed.**  The start values handed to the optimiser by any `_fit` of `h`, in
+any history, are the ones captured at `h`'s first `_fit` (`h._p0`), and those are the parameter
+values the constructor put in place (token 0) — never the result of an earlier fit.  Hence what a
+`_fit` computes is a function of (pairs, conditioners' parameters, initial values) only. -/
+theorem start_values_fixed (N : Nat) (conds : Nat → List Nat) (ops : List (Nat × Nat)) :
+    let s := runHistory N conds ops
+    (∀ ev ∈ s.evlog, s.p0At ev.fn = some ev.p0 ∧ ev.p0 = 0) ∧
+    (∀ h, s.version h = 0 → s.p0At h = none) ∧ (∀ h, 0 < s.version h → s.p0At h = some 0) := by
+  intro s
+  have hinv := runHistory_evInv N conds ops
+  refine ⟨fun ev hev => ?_, fun h hv => (hinv.never h hv).1, fun h hv => (hinv.once h hv).1⟩
+  obtain ⟨h1, h2⟩ := hinv.p0ev ev hev
+  exact ⟨by rw [h1]; exact h2, h1⟩
+
+/-- the detailed event log refines the plain one -/
+theorem evlog_refines_log (N : Nat) (conds : Nat → List Nat) (ops : List (Nat × Nat)) :
+    (runHistory N conds ops).evlog.map (fun ev => ev.fn) = (runHistory N conds ops).log :=
+  (runHistory_evInv N conds ops).fns
+
+/-- `lastData h` is the data epoch of the newest `_fit` event of `h` in the log -/
+theorem lastData_eq_log (N : Nat) (conds : Nat → List Nat) (ops : List (Nat × Nat)) (h : Nat) :
+    (runHistory N conds ops).lastData h =
+      ((runHistory N conds ops).evlog.find? (fun ev => ev.fn == h)).map (fun ev => ev.data) :=
+  (runHistory_evInv N conds ops).last h
+
+/-- a fitted function may fit -/
+def MF (s : Mut) : Prop := ∀ h, 0 < s.version h → s.mayFit h = true
+
+/-- the pairs of the last `_fit` are the stored ones -/
+def DataOK (s : Mut) : Prop := ∀ h e, s.lastData h = some e → s.xyEpoch h = some e
+
+theorem mf_bump (s : Mut) (f e : Nat) (hm : s.mayFit f = true) (h : MF s) : MF (bump s f e) := by
+  intro k hv
+  by_cases hk : k = f
+  · subst hk; exact hm
+  · have : (bump s f e).version k = s.version k := upd_other _ _ _ _ hk
+    exact h k (by rw [← this]; exact hv)
+
+theorem mf_allow (s : Mut) (f h : Nat) (hs : MF s) : MF (allow s f h) :=
+  fun k hv => (mono_allow s f h).may k (hs k hv)
+
+theorem dataOK_bump (s : Mut) (f e : Nat) (hx : s.xyEpoch f = some e) (h : DataOK s) :
+    DataOK (bump s f e) := by
+  intro k e' hl
+  have hl' : upd s.lastData f (some e) k = some e' := hl
+  show s.xyEpoch k = some e'
+  by_cases hk : k = f
+  · subst hk
+    rw [upd_same] at hl'
+    rw [← hl']; exact hx
+  · rw [upd_other _ _ _ _ hk] at hl'
+    exact h k e' hl'
+
+/-- the invariants about the inputs of the fits, for top-level states -/
+def InInv (s : Mut) : Prop := EvInv s ∧ MF s ∧ DataOK s
+
+theorem fitCall_inInv (N : Nat) (conds : Nat → List Nat) (f e : Nat) (hf : f < N) (s : Mut)
+    (h : InInv s) : InInv (fitCall N conds f e s) := by
+  obtain ⟨hev, hmf, hd⟩ := h
+  refine ⟨fitCall_evInv N conds f e s hev, ?_, ?_⟩
+  · rw [fitCall_eq]
+    have h1 : MF (store s f e) := hmf
+    by_cases hm : s.mayFit f = true
+    · rw [if_pos hm]
+      exact (doFit_preserves N conds MF (fun s f e _ hm h => mf_bump s f e hm h)
+        (fun _ _ _ h => h) (fun s f h hs => mf_allow s f h hs)).1 N f e _ (upd_same _ _ _) hm h1
+    · rw [if_neg hm]; exact h1
+  · rw [fitCall_eq]
+    by_cases hm : s.mayFit f = true
+    · rw [if_pos hm]
+      obtain ⟨n, rfl⟩ : ∃ n, N = n + 1 := ⟨N - 1, by omega⟩
+      apply (doFit_preserves (n + 1) conds DataOK (fun s f e hx _ h => dataOK_bump s f e hx h)
+        (fun _ _ _ h => h) (fun _ _ _ h => h)).2 n f e
+      intro k e' hl
+      have hl' : upd s.lastData f (some e) k = some e' := hl
+      show upd s.xyEpoch f (some e) k = some e'
+      by_cases hk : k = f
+      · subst hk
+        rw [upd_same] at hl' ⊢; exact hl'
+      · rw [upd_other _ _ _ _ hk] at hl' ⊢
+        exact hd k e' hl'
+    · rw [if_neg hm]
+      intro k e' hl
+      have hl' : s.lastData k = some e' := hl
+      show upd s.xyEpoch f (some e) k = some e'
+      by_cases hk : k = f
+      · subst hk
+        exfalso
+        by_cases hv : s.version k = 0
+        · rw [(hev.never k hv).2] at hl'; cases hl'
+        · exact hm (hmf k (by omega))
+      · rw [upd_other _ _ _ _ hk]; exact hd k e' hl'
+
+theorem init_inInv (conds : Nat → List Nat) : InInv (init conds) := by
+  refine ⟨init_evInv conds, ?_, ?_⟩
+  · intro h hv; simp [init] at hv
+  · intro h e hl; simp [init] at hl
+
+theorem runHistory_inInv (N : Nat) (conds : Nat → List Nat) (ops : List (Nat × Nat))
+    (hops : ∀ p ∈ ops, p.1 < N) : InInv (runHistory N conds ops) :=
+  runHistory_induct N conds InInv (init_inInv conds) ops (fun p => p.1 < N) hops
+    (fun s p hp hs => fitCall_inInv N conds p.1 p.2 hp s hs)
+
+/-- **the last `_fit` of a fitted function used the stored pairs**, i.e. those of the latest public
+call on it (state form of `fit_uses_stored_data`; no assumption on the declaration) -/
+theorem last_fit_data_is_stored (N : Nat) (conds : Nat → List Nat) (ops : List (Nat × Nat))
+    (hops : ∀ p ∈ ops, p.1 < N) :
+    let s := runHistory N conds ops
+    ∀ h, 0 < s.version h →
+      ∃ e, s.lastData h = some e ∧ s.xyEpoch h = some e ∧ latestCall ops h = some e := by
+  intro s h hv
+  obtain ⟨hev, _, hd⟩ := runHistory_inInv N conds ops hops
+  obtain ⟨e, he⟩ := Option.isSome_iff_exists.mp (hev.once h hv).2
+  have hx := hd h e he
+  exact ⟨e, he, hx, by rw [← stored_data_is_latest_call N conds]; exact hx⟩
+
+/-- **re-fit: after a complete round everything is current.**  Well-formed declaration; any earlier
+history `pre` (complete or partial rounds, any epochs); then a round `rnd` in which every function
+receives a public `fit` call with pairs of epoch `r`, in ANY order (also repeated calls).  Then
+every function is fitted, its stored pairs are those of epoch `r`, its LAST `_fit` ran on the
+epoch-`r` pairs starting from the initial values, and that last `_fit` saw the final version of
+each of its conditioners — whose own last `_fit` also ran on epoch-`r` pairs.  So a re-fitted
+model's dependence functions are fitted to the NEW pairs given the conditioners' NEW parameters. -/
+theorem round_complete_all_current (N : Nat) (conds : Nat → List Nat) (wf : WF conds)
+    (pre rnd : List (Nat × Nat)) (r : Nat) (hpre : ∀ p ∈ pre, p.1 < N)
+    (hrnd : ∀ p ∈ rnd, p.1 < N ∧ p.2 = r) (hall : ∀ f, f < N → (f, r) ∈ rnd) :
+    let s := runHistory N conds (pre ++ rnd)
+    ∀ h, h < N → 0 < s.version h ∧ s.xyEpoch h = some r ∧ s.lastData h = some r ∧
+      (∃ ev, s.evlog.find? (fun ev => ev.fn == h) = some ev ∧ ev.data = r ∧ ev.p0 = 0) ∧
+      ∀ g ∈ conds h, 0 < s.version g ∧ s.seen h g = s.version g ∧ s.lastData g = some r := by
+  intro s
+  have hops : ∀ p ∈ pre ++ rnd, p.1 < N := by
+    intro p hp
+    rcases List.mem_append.mp hp with hp | hp
+    · exact hpre p hp
+    · exact (hrnd p hp).1
+  have hall' : ∀ f, f < N → ∃ p ∈ pre ++ rnd, p.1 = f :=
+    fun f hf => ⟨(f, r), List.mem_append_right _ (hall f hf), rfl⟩
+  have hfin := final_state_consistent N conds wf (pre ++ rnd) hops hall'
+  have hlast : ∀ h, h < N → s.lastData h = some r ∧ s.xyEpoch h = some r := by
+    intro h hh
+    obtain ⟨e, h1, h2, h3⟩ := last_fit_data_is_stored N conds (pre ++ rnd) hops h (hfin h hh).1
+    have h4 := latestCall_suffix pre rnd h r (fun p hp _ => (hrnd p hp).2)
+      ⟨(h, r), hall h hh, rfl⟩
+    have her : e = r := by
+      rw [h4] at h3; exact (Option.some.inj h3).symm
+    subst her
+    exact ⟨h1, h2⟩
+  intro h hh
+  obtain ⟨hv, hc⟩ := hfin h hh
+  refine ⟨hv, (hlast h hh).2, (hlast h hh).1, ?_, ?_⟩
+  · have hev := runHistory_evInv N conds (pre ++ rnd)
+    have h1 := hev.last h
+    rw [(hlast h hh).1] at h1
+    obtain ⟨ev, hfind, hdata⟩ := Option.map_eq_some_iff.mp h1.symm
+    exact ⟨ev, hfind, hdata, (hev.p0ev ev (List.mem_of_find?_eq_some hfind)).1⟩
+  · intro g hg
+    have hgN : g < N := by have := wf h g hg; omega
+    exact ⟨(hc g hg).1, (hc g hg).2, (hlast g hgN).1⟩
+
+/-- if the epoch label `r` of the final round is fresh, the last `_fit` of every function
+happened *during* the final round -/
+theorem round_complete_fits_in_round (N : Nat) (conds : Nat → List Nat) (wf : WF conds)
+    (pre rnd : List (Nat × Nat)) (r : Nat) (hpre : ∀ p ∈ pre, p.1 < N)
+    (hrnd : ∀ p ∈ rnd, p.1 < N ∧ p.2 = r) (hall : ∀ f, f < N → (f, r) ∈ rnd)
+    (hfresh : ∀ p ∈ pre, p.2 ≠ r) :
+    let s := runHistory N conds (pre ++ rnd)
+    ∀ h, h < N → ∃ ev, s.evlog.find? (fun ev => ev.fn == h) = some ev ∧ pre.length < ev.call := by
+  intro s h hh
+  obtain ⟨_, _, _, ⟨ev, hfind, hdata, _⟩, _⟩ :=
+    round_complete_all_current N conds wf pre rnd r hpre hrnd hall h hh
+  refine ⟨ev, hfind, ?_⟩
+  have hmem := List.mem_of_find?_eq_some hfind
+  have hfn : ev.fn = h := by simpa using List.find?_some hfind
+  obtain ⟨_, _, h3⟩ := every_fit_used_latest_call_data N conds (pre ++ rnd) ev hmem
+  by_contra hle
+  have hle' : ev.call ≤ pre.length := by omega
+  rw [List.take_append_of_le_length hle', hfn, hdata] at h3
+  exact hfresh _ (List.mem_of_mem_take (latestCall_mem _ h r h3)) rfl
 
 /-! ### witnesses / non-vacuity -/
 
@@ -774,9 +1380,35 @@ been fitted (`_may_fit` became true after the *first* conditioner; the `issubset
 `callback` is the wrong way round).  The wasted fit is repaired when `1` is fitted later
 (`final_state_consistent`). -/
 theorem intermediate_fit_may_see_unfitted_conditioner :
-    (runHistory 3 joinConds [2, 0]).log = [2, 0] ∧
-    (runHistory 3 joinConds [2, 0]).version 1 = 0 ∧ 1 ∈ joinConds 2 ∧
-    (runHistory 3 joinConds [2, 0, 1]).log = [2, 1, 2, 0] := by decide
+    (runHistory 3 joinConds (round [2, 0] 0)).log = [2, 0] ∧
+    (runHistory 3 joinConds (round [2, 0] 0)).version 1 = 0 ∧ 1 ∈ joinConds 2 ∧
+    (runHistory 3 joinConds (round [2, 0, 1] 0)).log = [2, 1, 2, 0] := by decide
+
+/-- the chain `0 → 1` (function 1 is declared after its conditioner 0) -/
+def chain2 : Nat → List Nat | 1 => [0] | _ => []
+
+theorem chain2_wf : WF chain2 := by
+  intro f g hg
+  unfold chain2 at hg
+  split at hg
+  · simp at hg; omega
+  · simp at hg
+
+/-- **the seeded variant (a) re-fits old pairs.**  Chain `0 → 1`; the parameters dict lists the
+chained function first, so every round is `fit(1); fit(0)`; two rounds with pairs of epochs 0
+and 1.  On the variant `fitCallStale` (pairs stored only when the fit is deferred) the callback of
+round 2 re-fits function 1 on the pairs of epoch 0 — the conclusion of
+`round_complete_all_current` fails — whereas the model of the real code ends with epoch 1. -/
+theorem stale_variant_refits_old_pairs :
+    let ops := round [1, 0] 0 ++ round [1, 0] 1
+    (runHistoryStale 2 chain2 ops).lastData 1 = some 0 ∧
+    (runHistoryStale 2 chain2 ops).xyEpoch 1 = some 0 ∧
+    (runHistoryStale 2 chain2 ops).evlog.map (fun ev => (ev.fn, ev.data)) =
+      [(1, 0), (0, 1), (1, 1), (1, 0), (0, 0)] ∧
+    ¬ (∀ h, h < 2 → (runHistoryStale 2 chain2 ops).lastData h = some 1) ∧
+    (runHistory 2 chain2 ops).evlog.map (fun ev => (ev.fn, ev.data)) =
+      [(1, 1), (0, 1), (1, 1), (1, 0), (0, 0)] ∧
+    (∀ h, h < 2 → (runHistory 2 chain2 ops).lastData h = some 1) := by decide
 
 -- non-vacuity: the diamond 0 → {1, 2} → 3, fitted in the order 3, 1, 2, 0 and then 0 again
 def diamond : Nat → List Nat | 1 => [0] | 2 => [0] | 3 => [1, 2] | _ => []
@@ -785,11 +1417,31 @@ theorem diamond_wf : WF diamond := by
   unfold diamond at hg
   split at hg <;> simp at hg <;> omega
 example : checkDecls [[], [0], [0], [1, 2]] = true := by decide
-example : ((runHistory 4 diamond [3, 1, 2, 0]).version 3, (runHistory 4 diamond [3, 1, 2, 0]).version 0)
-    = (2, 1) := by decide
-example : (runHistory 4 diamond [3, 1, 2, 0]).log = [3, 2, 3, 1, 0] := by decide
-example : (runHistory 4 diamond [3, 1, 2, 0, 0]).version 3 = 4 := by decide
-example : (runHistory 4 diamond [3, 1, 2]).version 3 = 0 := by decide  -- nothing fitted before the root is
+example : ((runHistory 4 diamond (round [3, 1, 2, 0] 0)).version 3,
+    (runHistory 4 diamond (round [3, 1, 2, 0] 0)).version 0) = (2, 1) := by decide
+example : (runHistory 4 diamond (round [3, 1, 2, 0] 0)).log = [3, 2, 3, 1, 0] := by decide
+example : (runHistory 4 diamond (round [3, 1, 2, 0, 0] 0)).version 3 = 4 := by decide
+example : (runHistory 4 diamond (round [3, 1, 2] 0)).version 3 = 0 := by decide  -- nothing fitted before the root is
+
+-- non-vacuity of `round_complete_all_current`: a first round, a partial round (only 2 re-fitted,
+-- epoch 1), then a complete round of epoch 2 in another order
+example :
+    let pre := round [3, 1, 2, 0] 0 ++ [(2, 1)]
+    let rnd := round [3, 0, 2, 1] 2
+    (∀ p ∈ pre, p.1 < 4) ∧ (∀ p ∈ rnd, p.1 < 4 ∧ p.2 = 2) ∧ (∀ f, f < 4 → (f, 2) ∈ rnd) ∧
+    (∀ p ∈ pre, p.2 ≠ 2) := by decide
+example :
+    (runHistory 4 diamond (round [3, 1, 2, 0] 0 ++ [(2, 1)] ++ round [3, 0, 2, 1] 2)).evlog.map
+      (fun ev => (ev.fn, ev.data, ev.p0, ev.call)) =
+    [(3, 2, 0, 9), (1, 2, 0, 9), (3, 2, 0, 8), (2, 2, 0, 8), (3, 2, 0, 7), (2, 1, 0, 7), (3, 2, 0, 7),
+     (1, 0, 0, 7), (0, 2, 0, 7), (3, 2, 0, 6), (3, 0, 0, 5), (2, 1, 0, 5), (3, 0, 0, 4), (2, 0, 0, 4), (3, 0, 0, 4),
+     (1, 0, 0, 4), (0, 0, 0, 4)] := by decide
+-- the partial round leaves function 1 on the old pairs (that is what a partial re-fit means)
+example : (runHistory 4 diamond (round [3, 1, 2, 0] 0 ++ [(2, 1)])).lastData 1 = some 0 ∧
+    (runHistory 4 diamond (round [3, 1, 2, 0] 0 ++ [(2, 1)])).lastData 2 = some 1 ∧
+    (runHistory 4 diamond (round [3, 1, 2, 0] 0 ++ [(2, 1)])).lastData 3 = some 0 := by decide
+example : latestCall [(1, 0), (0, 0), (1, 1)] 1 = some 1 ∧ latestCall [(1, 0), (0, 0), (1, 1)] 0 = some 0 ∧
+    latestCall [(1, 0), (0, 0), (1, 1)] 2 = none := by decide
 
 /-! ## Part 2 — bounds, optimiser dispatch, linear least squares -/
 
